@@ -27,6 +27,27 @@ def _copy_tree(src_root: str, dst_root: str):
 
 def apply_edits(root: str, edits) -> str | None:
     """edits: list of (relative file, old, new[, count]).  Returns a reason when stale."""
+    # positional splices first, from the end of each file backwards so offsets stay valid
+    splices = [e for e in edits if e and e[0] == 'splice']
+    edits = [e for e in edits if not (e and e[0] == 'splice')]
+    by_file: dict[str, list] = {}
+    for e in splices:
+        by_file.setdefault(e[1], []).append(e)
+    for rel, es in by_file.items():
+        p = os.path.join(root, rel)
+        if not os.path.exists(p):
+            return f'{rel} missing'
+        lines = open(p, encoding='utf-8').read().split('\n')
+        es.sort(key=lambda e: (e[2], e[3]), reverse=True)
+        for _, _, l1, c1, l2, c2, new in es:
+            # ast column offsets are utf-8 byte offsets
+            b1 = lines[l1 - 1].encode('utf-8')
+            b2 = lines[l2 - 1].encode('utf-8')
+            head = b1[:c1].decode('utf-8')
+            tail = b2[c2:].decode('utf-8')
+            lines[l1 - 1:l2] = [head + new + tail]
+        with open(p, 'w', encoding='utf-8') as f:
+            f.write('\n'.join(lines))
     for ed in edits:
         rel, old, new = ed[0], ed[1], ed[2]
         want = ed[3] if len(ed) > 3 else 1
@@ -159,6 +180,14 @@ def run_audit(prop: str, rep: Report, seed: int = 0, cap: int | None = None):
     from .variants import VARIANTS
     from .model import REPO
     vs = [v for v in VARIANTS if v['prop'] == prop]
+    n_curated = len(vs)
+    try:
+        from . import automut
+        auto = automut.generate(prop, REPO, seed)
+    except Exception as e:      # a generator bug must not look like a finding
+        auto = []
+        rep.note(f'automatic variant generation failed: {type(e).__name__}: {e}')
+    vs = vs + auto
     if not vs:
         rep.note('no audit variants registered for this property')
         rep.audit = {'variants': 0}
@@ -167,6 +196,7 @@ def run_audit(prop: str, rep: Report, seed: int = 0, cap: int | None = None):
     rnd.shuffle(vs)
     if cap:
         vs = vs[:cap]
+    n_auto = sum(1 for v in vs if v['id'].startswith('auto-'))
     t0 = time.time()
     # failures already present on the tree itself are not attributed to a variant
     base_fail = {(i.rule, i.construct) for i in rep.instances if not i.ok}
@@ -176,7 +206,7 @@ def run_audit(prop: str, rep: Report, seed: int = 0, cap: int | None = None):
     with cf.ProcessPoolExecutor(max_workers=workers) as ex:
         for r in ex.map(_one, jobs):
             results.append(r)
-    summary = {'variants': len(vs), 'detected': 0, 'silent': 0, 'stale': 0, 'failures': [], 'wall_s': 0.0,
+    summary = {'variants': len(vs), 'curated': len(vs) - n_auto, 'automatic_per_instance': n_auto, 'detected': 0, 'silent': 0, 'stale': 0, 'failures': [], 'wall_s': 0.0,
                'details': []}
     for vid, status, info in results:
         summary['details'].append({'id': vid, 'status': status, 'info': info})
@@ -191,7 +221,8 @@ def run_audit(prop: str, rep: Report, seed: int = 0, cap: int | None = None):
     summary['wall_s'] = round(time.time() - t0, 2)
     rep.audit = summary
     if not rep.quiet:
-        print(f'{prop} audit: {summary["detected"]} breaking variants detected, {summary["silent"]} preserving '
+        print(f'{prop} audit: {summary["variants"]} variants ({n_auto} automatic per-instance): '
+              f'{summary["detected"]} breaking variants detected, {summary["silent"]} preserving '
               f'variants silent, {summary["stale"]} stale, {len(summary["failures"])} failures '
               f'({summary["wall_s"]}s)')
     for f in summary['failures']:
